@@ -710,7 +710,17 @@ func c13NewlineFlag(c *Ctx) {
 					res = ex
 				}
 			}
-			if res == nil {
+			tested := false
+			if res != nil {
+				for _, r := range referrersOf(res) {
+					if _, ok := r.(*ssa.If); ok {
+						tested = true
+					}
+				}
+			}
+			if !tested {
+				k++
+				c.violated("R6", fmt.Sprintf("statement-end-remembered #%d in %s", k, shortName(f)), p.InstrPos(cv), "the answer of atStatementEnd is dropped here: when it was true a `;` has been consumed and nothing records that the statement ended, so a statement following on the same line is a syntax error although the same tokens separated by a newline parse")
 				continue
 			}
 			stores := map[*ssa.BasicBlock]bool{}
